@@ -53,6 +53,15 @@ pub fn judge(ctx: &mut Ctx, d: &SData) {
     if d.length.is_some() {
         ctx.rep.bucket("length.some");
     }
+    // the same message into a pre-sized and into a recycled buffer must give the same octets
+    for wk in [Wk::Presized(*ctx.rng.pick(&[8usize, 64, 1500, 70_000])), Wk::Reused] {
+        match (exec::encode_msg(&cm, wk), exec::encode_msg(&cm, Wk::Vec)) {
+            (exec::EncOut::Ok(a), exec::EncOut::Ok(b)) if a.bytes == b.bytes => ctx.rep.bucket("writer_variants.agree"),
+            (exec::EncOut::Ok(_), exec::EncOut::Ok(_)) => ctx.violate(format!("C04:encode:differs-by-writer-state:{}", if matches!(wk, Wk::Reused) { "recycled-writer" } else { "presized-writer" }), format!("encoding into a {:?} VecWriter gives different octets than into a fresh one", wk), J::obj(vec![("message", J::s(key.clone()))])),
+            (exec::EncOut::Panic(p), exec::EncOut::Ok(_)) => ctx.violate(format!("C04:encode-panic:{}:{}", if matches!(wk, Wk::Reused) { "recycled-writer" } else { "presized-writer" }, p.class()), format!("encoding into a {:?} VecWriter panicked ({}) although a fresh one works", wk, p.message), J::obj(vec![("message", J::s(key.clone()))])),
+            _ => {}
+        }
+    }
     let enc = match exec::encode_msg(&cm, Wk::Vec) {
         exec::EncOut::Ok(e) => e.bytes,
         exec::EncOut::Panic(p) => {
